@@ -69,7 +69,7 @@ Theorem C15_framing_example :
   w_wire ex_q2_frag = w_wire ex_q2 /\ w_live ex_q2_frag = true /\ rd ex_q2_frag = rd ex_q2.
 Proof. exact framing_example. Qed.
 
-From Minimq Require Import WireInv Wire Healthy Owed.
+From Minimq Require Import WireInv Wire PingQuiet Healthy Owed.
 
 (* ---- the outbound side: what reaches the transport does not depend on how the transport cuts the writes ----
    `owed o` is a function of the queues alone (Owed.v): the unwritten rest of the half-written entry, then every unsent
@@ -98,6 +98,14 @@ Proof. exact flush_outbound_wire. Qed.
 Theorem C15_nothing_to_do_nothing_owed : forall o, next_step o = None -> owed o = [].
 Proof. exact owed_no_step. Qed.
 
+From Minimq Require Import Sends.
+
+(* and with no assumption on the timers: the drain decides once, before its first step, whether a PINGREQ joins the queue *)
+Theorem C15_drain_writes_owed_every_state : forall fuel w w',
+  WInv (w_sess w) -> flush_outbound fuel w = (w', ODone tt) ->
+  w_wire w' = w_wire w ++ owed (s_ob (fst (maybe_queue_pingreq (w_sess w) (w_now w)))) /\ next_step (s_ob (w_sess w')) = None.
+Proof. exact flush_outbound_wire_any. Qed.
+
 Print Assumptions C15_reader_relation_is_a_function.
 Print Assumptions C15_reader_chunking_independent.
 Print Assumptions C15_loop_refines_relation.
@@ -113,3 +121,4 @@ Print Assumptions C15_engine_step_conserves.
 Print Assumptions C15_written_prefix_leaves_owed.
 Print Assumptions C15_drain_writes_owed_any_fragmentation.
 Print Assumptions C15_nothing_to_do_nothing_owed.
+Print Assumptions C15_drain_writes_owed_every_state.
